@@ -348,7 +348,10 @@ class Machine(object):
             # units it asks for into whatever memo the table keeps): what
             # the units table answers, against definitions
             n_ops = len(self.spec['ops'])
-            bad = libops.units_behaviour_problems(n_ops % 2)
+            # (order of asking fixed per run, not per length: shrinking the
+            # operations must not change it)
+            bad = libops.units_behaviour_problems(
+                int(self.spec.get('run_seed') or 0) % 2)
             if bad:
                 self.viol('state-altered', 'units-table',
                           'units-table-answers-against-definitions',
@@ -1458,11 +1461,28 @@ def plan(tier, verif_seed, prop):
     return tasks
 
 
+ISOLATE_TASKS = True       # a task is one process lifetime (sim/runner.py)
+
+
+def spec_history(spec):
+    """The histories that ran before this one in its process lifetime (as
+    explicit specs)."""
+    if spec.get('history') is not None:
+        return list(spec['history'])
+    ht = spec.get('history_task')
+    if ht:
+        return [gen_spec(s, ht['prop']) for s in ht['seeds']]
+    return []
+
+
 def execute_spec(spec):
+    """In a process that has loaded nothing yet."""
     if 'shipped' in spec:
         r = run_shipped_export({'id': 'replay', 'shipped': spec['shipped'],
                                 'only': spec.get('group')})
         return r['violations'], r['digest'], None
+    for h in spec_history(spec):
+        Machine(h, h['property']).run()
     m = Machine(spec, spec['property']).run()
     return m.viols, m.log.digest(), m
 
@@ -1484,7 +1504,7 @@ def run_task(task):
     if 'shipped' in task:
         return [run_shipped_export(task)]
     results = []
-    for seed in task['seeds']:
+    for pos, seed in enumerate(task['seeds']):
         spec = gen_spec(seed, prop)
         viols, dig, m = execute_spec(spec)
         by = {}
@@ -1492,7 +1512,10 @@ def run_task(task):
         for v in viols:
             by[v['signature']] = by.get(v['signature'], 0) + 1
             if by[v['signature']] == 1:
-                v['spec'] = spec
+                # with what this process ran before (seeds: the specs are
+                # regenerated; the shrinker drops what is not needed)
+                v['spec'] = dict(spec, history_task={
+                    'prop': prop, 'seeds': list(task['seeds'][:pos])})
                 v['run'] = '%s-%d' % (prop, seed)
                 kept.append(v)
         fired = dict(m.fs.fired_counts)
@@ -1658,18 +1681,51 @@ def summarise(results, prop):
     }
 
 
+def _forked(fn, timeout=900):
+    from sim.zygote import _run_chain_forked
+    kind, val = _run_chain_forked(lambda st, c: fn(), None, None, timeout)
+    return val if kind == 'ok' else False
+
+
 def shrink(spec, signature):
     if 'shipped' in spec:
         return spec
+    hist = spec_history(spec)
+    spec = dict((k, v) for k, v in spec.items() if k != 'history_task')
+    if hist:
+        def test_hist(h):
+            def run():
+                try:
+                    viols, _, _ = execute_spec(dict(spec, history=list(h)))
+                except Exception:
+                    return False
+                return any(v['signature'] == signature for v in viols)
+            return _forked(run)
+        if test_hist([]):
+            hist = []
+        elif test_hist(hist):
+            hist = ddmin(hist, test_hist, max_tests=80)
+        if hist:
+            # history-dependent: what ran before is minimised, the failing
+            # history itself is kept as it is
+            return dict(spec, history=hist, history_needed=len(hist))
+    spec.pop('history', None)
+
+    def holds(s):
+        # every trial in a fork of this (unused) process: trials must not
+        # see what earlier trials left behind
+        def run():
+            try:
+                viols, _, _ = execute_spec(s)
+            except Exception:
+                return False
+            return any(v['signature'] == signature for v in viols)
+        return _forked(run)
 
     def test_ops(ops):
         s = dict(spec)
         s['ops'] = ops
-        try:
-            viols, _, _ = execute_spec(s)
-        except Exception:
-            return False
-        return any(v['signature'] == signature for v in viols)
+        return holds(s)
     ops = ddmin(spec['ops'], test_ops, max_tests=200)
     new = copy.deepcopy(spec)
     new['ops'] = ops
@@ -1677,11 +1733,7 @@ def shrink(spec, signature):
     def test_world(aw):
         s = dict(new)
         s['aw'] = aw
-        try:
-            viols, _, _ = execute_spec(s)
-        except Exception:
-            return False
-        return any(v['signature'] == signature for v in viols)
+        return holds(s)
     aw = new['aw']
     items = [(f, i) for f in sorted(aw['files'])
              for i in range(len(aw['files'][f]['entries']))]
